@@ -1,9 +1,9 @@
-CFG = {'assumptions': ["every position, size and n stays below 2^31 - 64 (Go's int32 cannot overflow; larger values are outside every statement)",
+CFG = {'assumptions': ["every position, size and n stays below 2^31 - 64 (Go's int32 cannot overflow; larger values are outside every statement). The exact bounds are the hypotheses of C12_int32_Of / _OfMany / _ToArray / _Builder, which prove that the int32-wrapped model (Model/BitmapOf32.v) equals the unbounded one there",
                  'every word is in [0,2^64) (words_ok)',
                  'position lists are ascending (duplicates allowed) and non-negative; sizes and Set positions are non-negative',
                  'OfMany is compared only where the shifted concatenation is ascending (DESIGN section 6, C12, interpretation recorded); Builder has no such restriction',
                  "Builder: 'enough words for every bit' is read as: every set position is below 64*len(Words) (implied by ones(flat Words) = the positions set so far); the exact word count is compared with the model only (correspondence), not required by the checker"],
- 'files': ['bitmap/of.go', 'bitmap/ofmany.go', 'bitmap/builder.go', 'bitmap/toarray.go', 'bitmap/get.go'],
+ 'files': ['bitmap/of.go', 'bitmap/ofmany.go', 'bitmap/builder.go', 'bitmap/toarray.go', 'bitmap/get.go', 'bitmap/mask.go', 'bitmap/fmt.go'],
  'go': {'bitmap.Of': 'bitmap.Of',
         'bitmap.ToArray': 'bitmap.ToArray',
         'bitmap.Of/ToArray': 'bitmap.ToArray(bitmap.Of(ps, n...))',
@@ -11,6 +11,13 @@ CFG = {'assumptions': ["every position, size and n stays below 2^31 - 64 (Go's i
         'bitmap.Get': 'bitmap.Get, bitmap.Get1',
         'bitmap.SafeGet': 'bitmap.SafeGet, bitmap.SafeGet1',
         'bitmap.OfMany': 'bitmap.OfMany',
+        'bitmap.Mask': 'bitmap.Mask[i], bitmap.RMask[i]',
+        'bitmap.Bit': 'bitmap.MaskUpto[i], bitmap.RMaskUpto[i], bitmap.Bit[i], bitmap.RBit[i]',
+        'bitmap.Fmt/c12': 'bitmap.Fmt on an integer / a slice of integers of every kind (and on non-integer types)',
+        'bitmap.Of/query': 'bitmap.Of, then IndexRank64+Rank64, IndexRank128+Rank128, NextOne, PrevOne on the result',
+        'bitmap.Builder/query': 'a Builder history, then the same four queries on Builder.Words',
+        'bitmap.OfMany/asOf': 'bitmap.OfMany(subs, sizes) compared with bitmap.Of(shifted concatenation, sum of sizes): only whether they agree',
+        'bitmap.Builder/asOfMany': 'bitmap.NewBuilder + one Builder.Extend per segment compared with bitmap.OfMany: whether Words equals it word for word and Offset is the sum',
         'bitmap.Builder': 'bitmap.NewBuilder + Builder.Extend / Builder.Set history, Words and Offset after every call'},
  'rule': 'cases = Of: every subset of {0,1,62,63,64,65,127,128} x 18 choices of n (absent, negative down to -2^31, smaller, last+1, '
          'larger, word-aligned) + random ascending lists in 5 styles (dense, small gaps, word boundaries, gaps > 3 '
@@ -18,6 +25,12 @@ CFG = {'assumptions': ["every position, size and n stays below 2^31 - 64 (Go's i
          'SafeGet/SafeGet1 inside, SafeGet* outside (negative, just past the end, far, int32 extremes); OfMany on 0..6 '
          'segments (size 0, empty segments, position size-1, positions >= size in the last segment); Builder histories '
          'of 1..12 Extend/Set calls from NewBuilder(0|1|63|64|100|1000) (size 0, empty lists, positions >= size, Set '
-         'below/at/above Offset, even and negative values), Words and Offset compared after every call. Non-trivial: '
+         'below/at/above Offset, even and negative values), Words and Offset compared after every call; widening: every entry of Mask/RMask/MaskUpto/RMaskUpto/Bit/RBit '
+         'and the first indices outside (panic); Fmt on every uint8 and int8 value, on 1/2/4/8-byte signed and unsigned '
+         'integers single and in slices of 0..5 (boundaries, single bits, complements, random), on Of(...) bitmaps, on '
+         'non-integer types; Rank64/Rank128/NextOne/PrevOne on Of(ps,n) and on Builder.Words (i at / next to a set position, on word '
+         'edges, random; e = end, = i, i+1..i+65, random); OfMany against Of(shifted concatenation, sum of sizes) with positions >= size in any '
+         'segment (non-ascending concatenations, panics): only the agreement of the two calls is observed; exhaustive: Get/SafeGet at every i in [-130, 64*len+130] on 6 small bitmaps, '
+         'every Builder history of 1..2 (thorough 3) calls over a 10-call alphabet, every OfMany list of 0..3 segments over a 7-segment alphabet. Non-trivial: '
          'non-empty position list / bitmap with a 1-bit / probed word neither 0 nor all-ones / >1 segment with a '
          'position / >1 call; distinct = distinct (op,args)'}
